@@ -284,3 +284,44 @@ Fixpoint ops_ok (c : client) (ops : list op) : Prop :=
 (* the states a client can reach on a zone of n >= 1 units of unit >= 1 bytes *)
 Definition reachable (n unit : Z) (c : client) : Prop :=
   exists ops, ops_ok (cl_init n unit) ops /\ c = run (cl_init n unit) ops.
+
+(* ---- vocabulary of the statements proved about the model (no proofs here) -------- *)
+(* the index is sorted by strictly increasing keys, all above b *)
+Fixpoint keys_gt (b : Z) (ix : index) : Prop :=
+  match ix with
+  | [] => True
+  | (k, _) :: r => b < k /\ keys_gt k r
+  end.
+
+
+(* number of units reserved for the live allocations *)
+Definition units_sum (unit : Z) (live : list (Z * Z)) : Z :=
+  fold_right (fun a acc => units_of (snd a) unit + acc) 0 live.
+
+(* unit u of the zone belongs to a live allocation *)
+Definition busy (c : client) (u : Z) : Prop :=
+  exists a, In a (cl_live c) /\
+    fst a / z_unit (cl_zone c) <= u < fst a / z_unit (cl_zone c) + units_of (snd a) (z_unit (cl_zone c)).
+(* k consecutive units starting at a, inside the zone, none of them busy *)
+Definition free_window (c : client) (a k : Z) : Prop :=
+  0 <= a /\ a + k <= z_n (cl_zone c) /\ forall u, a <= u < a + k -> ~ busy c u.
+(* a maximal run of free units *)
+Definition max_free_run (c : client) (a k : Z) : Prop :=
+  1 <= k /\ free_window c a k /\ (a = 0 \/ busy c (a - 1)) /\
+  (a + k = z_n (cl_zone c) \/ busy c (a + k)).
+
+(* the segment walk (what zone_debug iterates over), checked as a list *)
+Fixpoint segs_ok (n pos prev : Z) (prev_free : bool) (segs : list (Z * cell)) : Prop :=
+  match segs with
+  | [] => pos = n
+  | (t, c) :: r =>
+      t = pos /\ 1 <= c_nbu c /\ c_nbp c = prev /\ (c_st c = EMPTY \/ c_st c = FULL) /\
+      (prev_free = true -> c_st c = FULL) /\
+      segs_ok n (pos + c_nbu c) (c_nbu c) (c_st c =? EMPTY) r
+  end.
+Fixpoint no_adjacent_free (prev_free : bool) (segs : list (Z * cell)) : Prop :=
+  match segs with
+  | [] => True
+  | (_, c) :: r => ~ (prev_free = true /\ c_st c = EMPTY) /\ no_adjacent_free (c_st c =? EMPTY) r
+  end.
+
